@@ -51,8 +51,10 @@ type script struct {
 	threads [][]call
 	pub     bool // root has a recording publish function (a republisher thread exists)
 	chunk4  bool // 4-byte chunker: the file consists of two leaf blocks under a root node
+	shared  bool // one read-write descriptor is opened during setup and used by all threads (swrite/sflush/sclose), closed in the final phase
 	tree    bool // initial content written through a descriptor (DagModifier decides the shape) instead of PutNode of a single inline-data node
 	delta   int  // BoundDelta (quick and thorough)
+	thOnly  bool // thorough tier only
 	small   bool // two-thread scenario small enough to be explored without a bound in thorough
 }
 
@@ -62,7 +64,7 @@ func cm(op string, m os.FileMode) call  { return call{op: op, mode: m} }
 func ct(op string, ts int) call         { return call{op: op, ts: ts} }
 func cp(op string, p string) call       { return call{op: op, path: p} }
 func wp(op string, reg int) call        { return call{op: op, reg: reg, path: "/d/f"} } // path-based write: Lookup first
-func isWrite(op string) bool            { return op == "write" || op == "writens" || op == "wflush" }
+func isWrite(op string) bool            { return op == "write" || op == "writens" || op == "wflush" || op == "swrite" }
 func letter(thr, idx int) byte          { return byte('A' + thr*3 + idx) }
 func (cl call) data(thr, idx int) string {
 	n := regLen
@@ -95,6 +97,7 @@ type exec struct {
 	rt    *mfs.Root
 	d     *mfs.Directory
 	fi    *mfs.File
+	sfd   mfs.FileDescriptor
 	pubs  []cid.Cid
 	setupErr string
 }
@@ -174,6 +177,11 @@ func (x *exec) setup() error {
 			return err
 		}
 	}
+	if x.sc.shared {
+		if x.sfd, err = x.fi.Open(x.ctx, mfs.Flags{Read: true, Write: true, Sync: true}); err != nil {
+			return err
+		}
+	}
 	if os.Getenv("VERIF_C20_SHAPE") != "" {
 		nd, _ := x.fi.GetNode()
 		fmt.Fprintf(os.Stderr, "shape of /d/f in %s: %T links=%d\n", x.sc.name, nd, len(nd.Links()))
@@ -208,6 +216,16 @@ func (x *exec) Main() {
 		vsched.Recv((<-chan struct{})(done[t]))
 	}
 	// final phase: every driver thread has finished
+	if x.sfd != nil {
+		x.rec(ev{kind: "start", thr: -1, idx: 2, op: "sclose"})
+		err := x.sfd.Close()
+		if err == mfs.ErrClosed {
+			err = nil // a driver thread closed it already
+			x.rec(ev{kind: "ret", thr: -1, idx: 2, op: "sclose", err: "already-closed"})
+		} else {
+			x.rec(ev{kind: "ret", thr: -1, idx: 2, op: "sclose", err: errStr(err)})
+		}
+	}
 	x.rec(ev{kind: "start", thr: -1, idx: 0, op: "final-live"})
 	s, err := x.readPath(x.finalName())
 	x.rec(ev{kind: "ret", thr: -1, idx: 0, op: "final-live", data: s, has: err == nil, err: errStr(err)})
@@ -382,6 +400,16 @@ func (x *exec) do(t, i int, cl call) {
 		}
 	case "write", "writens", "wflush":
 		_, err = x.writeCall(t, i, cl)
+	case "swrite":
+		off := int64(0)
+		if cl.reg > 0 {
+			off = int64(cl.reg * regLen)
+		}
+		_, err = x.sfd.WriteAt([]byte(cl.data(t, i)), off)
+	case "sflush":
+		err = x.sfd.Flush()
+	case "sclose":
+		err = x.sfd.Close()
 	case "read":
 		var fi *mfs.File
 		if fi, err = x.target(cl); err == nil {
@@ -479,26 +507,57 @@ type wr struct {
 	reg        int
 	data       string // bytes written to each covered region (regLen letters)
 	start, end int    // log positions: call start; ack position (acked) or return position (not acked), big if neither
+	ret        int    // swrite: position of its successful return (-1 = none)
 	acked      bool
 }
 
 func (x *exec) writes() []wr {
 	var ws []wr
+	const inf = 1 << 30
+	flushStart := map[[2]int]int{}
 	for p, e := range x.log {
+		if e.op == "sflush" || e.op == "sclose" {
+			// a successful Flush/Close of the shared descriptor acknowledges every write on it that had returned before the call started
+			k := [2]int{e.thr, e.idx}
+			if e.kind == "start" {
+				flushStart[k] = p
+			} else if e.kind == "ret" && e.err == "" {
+				for j := range ws {
+					if ws[j].op == "swrite" && !ws[j].acked && ws[j].ret >= 0 && ws[j].ret < flushStart[k] {
+						ws[j].acked, ws[j].end = true, p
+					}
+				}
+			}
+			continue
+		}
 		if !isWrite(e.op) {
 			continue
 		}
 		switch e.kind {
 		case "start":
 			cl := x.sc.threads[e.thr][e.idx]
-			ws = append(ws, wr{thr: e.thr, idx: e.idx, op: e.op, reg: cl.reg, data: strings.Repeat(string(letter(e.thr, e.idx)), regLen), start: p, end: 1 << 30})
+			ws = append(ws, wr{thr: e.thr, idx: e.idx, op: e.op, reg: cl.reg, data: strings.Repeat(string(letter(e.thr, e.idx)), regLen), start: p, end: inf, ret: -1})
 		case "ack", "ret":
 			for j := range ws {
-				if ws[j].thr == e.thr && ws[j].idx == e.idx && ws[j].end == 1<<30 {
+				if ws[j].thr != e.thr || ws[j].idx != e.idx {
+					continue
+				}
+				if e.op == "swrite" {
+					if e.err == "" {
+						ws[j].ret = p
+					} else {
+						ws[j].end = p // failed: never acknowledged
+					}
+				} else if ws[j].end == inf {
 					ws[j].end = p
 					ws[j].acked = e.kind == "ack"
 				}
 			}
+		}
+	}
+	for j := range ws {
+		if ws[j].end == inf && ws[j].ret >= 0 {
+			ws[j].end = ws[j].ret
 		}
 	}
 	return ws
@@ -637,7 +696,7 @@ func (x *exec) Check(res *vsched.Result) *eng.Violation {
 				"mv_overlaps", has("mv"),
 				"dir_flush_overlaps", has("dflush"),
 				"dir_meta_update_overlaps", has("dchmod"),
-				"other_writer_overlaps", has("write", "writens", "wflush", "fflush"),
+				"other_writer_overlaps", has("write", "writens", "wflush", "fflush", "swrite"),
 				"overlapping_calls", strings.Trim(ov, ","))
 		}
 	}
@@ -720,8 +779,6 @@ func scripts() []*script {
 		{name: "s2-modtime-touch-chmod", threads: [][]call{{c("modtime")}, {ct("touch", 1)}, {cm("chmod", 0o644)}}},
 		// S3: open-write-close || ForEachEntry on the parent || root flush / FlushPath
 		{name: "s3-write-list-rootflush", threads: [][]call{{w("write", 0)}, {c("list")}, {c("rootflush")}}},
-		{name: "s3-pwrite-list-flushpath-pub", pub: true, delta: -1, threads: [][]call{{wp("write", 0)}, {c("list")}, {cp("flushpath", "/")}}},
-		{name: "s3-write-flushpath-file-pub", pub: true, delta: -1, threads: [][]call{{w("write", 0)}, {cp("flushpath", "/d/f")}}},
 		// S4: descriptors
 		{name: "s4-read-write-fsync", threads: [][]call{{c("read")}, {w("write", -1)}, {c("fsync")}}},
 		{name: "s4-two-writers-disjoint", threads: [][]call{{w("write", 0), c("read")}, {w("write", 1), c("read")}}},
@@ -730,6 +787,8 @@ func scripts() []*script {
 		{name: "s4-fflush-write-read", threads: [][]call{{c("fflush")}, {w("write", 1)}, {c("read")}}},
 		{name: "s4-writens-rootflush-read", threads: [][]call{{w("writens", 0)}, {c("rootflush")}, {c("read")}}},
 		{name: "s4-pwrite-pread-tree", tree: true, threads: [][]call{{wp("write", 0), wp("writens", 1)}, {cp("read", "/d/f"), cp("read", "/d/f")}}},
+		{name: "s4-shared-fd", shared: true, threads: [][]call{{w("swrite", 0), w("swrite", 1)}, {c("sflush")}, {c("sclose")}}},
+		{name: "s4-shared-fd-flush-fsync", shared: true, small: true, threads: [][]call{{w("swrite", 0), c("sflush"), w("swrite", -1)}, {c("sflush"), c("rootflush")}}},
 		// S5: write+Flush || Mv || ListNames
 		{name: "s5-pwflush-mv-names", threads: [][]call{{wp("wflush", 0)}, {c("mv")}, {c("names")}}},
 		{name: "s5-pwrite-mv", threads: [][]call{{wp("write", -1)}, {c("mv")}}},
@@ -743,6 +802,14 @@ func scripts() []*script {
 		{name: "s8-dchmod-write", small: true, threads: [][]call{{cm("dchmod", 0o755)}, {w("write", 0)}}},
 		{name: "s8-dflush-pwrite-read", threads: [][]call{{c("dflush")}, {wp("write", 0)}, {cp("read", "/d/f")}}},
 		{name: "s8-dflush-pwritens", threads: [][]call{{c("dflush")}, {wp("writens", 0), cp("read", "/d/f")}}},
+		// thorough only: longer scripts / more threads
+		{name: "t-write2-list-rootflush-read", thOnly: true, threads: [][]call{{w("write", 0), w("wflush", 1)}, {c("list"), c("names")}, {c("rootflush"), c("read")}}},
+		{name: "t-three-writers", thOnly: true, threads: [][]call{{wp("write", 0), cp("read", "/d/f")}, {wp("writens", 1)}, {wp("wflush", -1)}}},
+		{name: "t-four-threads", thOnly: true, delta: -1, threads: [][]call{{w("write", -1)}, {c("read")}, {c("list")}, {c("fsync"), c("fflush")}}},
+		{name: "t-lookup-chmod-dir-write-chunk4", thOnly: true, chunk4: true, threads: [][]call{{c("lookup"), cm("dchmod", 0o700)}, {wp("write", 0), wp("write", 1)}, {c("fflush"), cp("read", "/d/f")}}},
+		// S3 with a publish function: a republisher thread and its timers take part (most expensive, kept last)
+		{name: "s3-pwrite-list-flushpath-pub", pub: true, delta: -1, threads: [][]call{{wp("write", 0)}, {c("list")}, {cp("flushpath", "/")}}},
+		{name: "s3-write-flushpath-file-pub", pub: true, delta: -1, threads: [][]call{{w("write", 0)}, {cp("flushpath", "/d/f")}}},
 	}
 }
 
@@ -751,6 +818,9 @@ func scenarios(r *eng.Run) []*vexp.Scenario {
 	thorough := r != nil && r.Thorough()
 	for _, s := range scripts() {
 		s := s
+		if s.thOnly && r != nil && !thorough {
+			continue // (worker processes, r == nil, know every scenario)
+		}
 		delta := s.delta
 		if s.small && thorough {
 			delta = 40 // effectively unbounded
